@@ -238,6 +238,75 @@ func runC13(w *World, r *Report) {
 		_ = n
 	}
 
+	// the wrappers that add the node key / stream-wrapper name keep what they were given: they may extend the error
+	// they received when that error itself is an *internalError, but they never replace it by an *internalError found
+	// deeper in its chain (that drops every wrapper the node put around it — its own sentinel, typed error, joined errors)
+	r.Rule("C13.wrap-keeps-outer", "wrapGraphNodeError / wrapStreamWrapperError return the given error itself (extended in place) or a new error wrapping it — never an inner *internalError located with errors.As", 2)
+	for _, n := range []string{"wrapGraphNodeError", "wrapStreamWrapperError"} {
+		f := w.Fn("compose", n)
+		usesAs := len(callsNamed(f, "errors.As")) > 0
+		// every non-interrupt return: MakeInterface of a fresh internalError whose origError is the parameter, or of the
+		// value obtained by asserting the parameter itself
+		errP := f.Params[len(f.Params)-1]
+		good := true
+		det := ""
+		instrs(f, func(in ssa.Instruction) {
+			ret, ok := in.(*ssa.Return)
+			if !ok {
+				return
+			}
+			v := ret.Results[0]
+			if v == ssa.Value(errP) {
+				return
+			}
+			mi, ok := v.(*ssa.MakeInterface)
+			if !ok {
+				good, det = false, "returns "+valText(v)
+				return
+			}
+			switch x := mi.X.(type) {
+			case *ssa.Alloc:
+				// new internalError: origError must be the parameter
+				okOrig := false
+				for _, fw := range fieldWrites(f) {
+					if fw.base == ssa.Value(x) && fw.field.Name() == "origError" && fw.val == ssa.Value(errP) {
+						okOrig = true
+					}
+				}
+				if !okOrig {
+					good, det = false, "a new internalError does not wrap the given error"
+				}
+			default:
+				// an existing *internalError: it must be the parameter itself (type assertion), not one found by errors.As
+				isSelf := false
+				var walk func(v ssa.Value, d int)
+				walk = func(v ssa.Value, d int) {
+					if d > 5 {
+						return
+					}
+					switch y := v.(type) {
+					case *ssa.TypeAssert:
+						if y.X == ssa.Value(errP) {
+							isSelf = true
+						}
+					case *ssa.Extract:
+						walk(y.Tuple, d+1)
+					case *ssa.Phi:
+						for _, e := range y.Edges {
+							walk(e, d+1)
+						}
+					}
+				}
+				walk(mi.X, 0)
+				if !isSelf {
+					good, det = false, "returns an *internalError that is not the given error itself ("+valText(mi.X)+")"
+				}
+			}
+		})
+		r.Check(good && !usesAs, "C13.wrap-keeps-outer", n+" keeps the error it was given", f.Pos(), "returns err, err.(*internalError) extended in place, or &internalError{origError: err}",
+			fmt.Sprintf("the wrapper can return an inner *internalError instead of the error the node returned (errors.As used=%v; %s): a node body that runs another compiled runnable and wraps its error with its own sentinel / typed error loses it — errors.Is / errors.As on the run's error no longer find the node's error", usesAs, det))
+	}
+
 	// node-path
 	r.Rule("C13.node-path", "a non-interrupt task error is returned wrapped by wrapGraphNodeError(task.nodeKey, task.err); no error arm falls through to the next task", 3)
 	res := w.Fn("compose", "runner.resolveInterruptCompletedTasks")
